@@ -58,7 +58,16 @@ func runBlocked(c *mon.Case, sp spec) {
 	if O > 0 {
 		c.Count("other_direction_deadline_calls", 1)
 	}
-	leave := sp.Peer == "vt-leave"
+	w.measureBlocked(D, O, maxT, sp.Peer == "vt-leave", nil, "")
+}
+
+// measureBlocked issues the timed call of the case until enough usable measurements are in and
+// judges each one: the corresponding timeout error, not before D (exact), not hanging beyond it
+// (stuck detector with maxT; canary rule on three consecutive attempts for D in {20,100} ms).
+// pre (if any) runs before every attempt, after arm; besides (if any) describes what else is going
+// on at the socket (part of the witness).
+func (w *world) measureBlocked(D, O, maxT time.Duration, leave bool, pre func() bool, besides string) {
+	c, sp := w.c, w.sp
 	// Two good measurements for short deadlines: the second call starts >= D after
 	// the option was set, so a timer armed once (at SetOption / creation) instead
 	// of per call shows up as early.  A suspected overshoot is re-measured: a
@@ -73,13 +82,16 @@ func runBlocked(c *mon.Case, sp spec) {
 		if !w.arm() {
 			return
 		}
+		if pre != nil && !pre() {
+			return
+		}
 		tc := w.timedOp()
 		if leave {
 			tc.call.ParkedIn(w.frame())
 			w.dropAll()
 			c.Count("peers_dropped_mid_call", len(w.vps))
 		}
-		if !c.AwaitOrViolate("deadline-ignored/"+w.id(), fmt.Sprintf("%s with deadline %v (other direction's deadline %v, inherited from the socket: %v; peer %s, state %s)", w.id(), D, O, sp.Inh, sp.Peer, sp.State), tc.call.Done, mon.AwaitOpts{MaxTimer: maxT}) {
+		if !c.AwaitOrViolate("deadline-ignored/"+w.id(), fmt.Sprintf("%s with deadline %v (other direction's deadline %v, inherited from the socket: %v; peer %s, state %s)%s", w.id(), D, O, sp.Inh, sp.Peer, sp.State, besides), tc.call.Done, mon.AwaitOpts{MaxTimer: maxT}) {
 			w.outcome = "no-return"
 			return
 		}
@@ -91,7 +103,7 @@ func runBlocked(c *mon.Case, sp spec) {
 		case err == w.wantTimeout():
 			if el < D {
 				w.outcome = "early"
-				c.Violate("early-timeout/"+w.id(), "%s (peer %s, state %s, q=%d, call #%d after the option was set; other direction's deadline %v; deadlines inherited from the socket: %v): %v returned %v after the call was invoked, deadline %v — %v early", w.id(), sp.Peer, sp.State, sp.Q, attempt+1, O, sp.Inh, err, el, D, D-el)
+				c.Violate("early-timeout/"+w.id(), "%s (peer %s, state %s, q=%d, call #%d after the option was set; other direction's deadline %v; deadlines inherited from the socket: %v)%s: %v returned %v after the call was invoked, deadline %v — %v early", w.id(), sp.Peer, sp.State, sp.Q, attempt+1, O, sp.Inh, besides, err, el, D, D-el)
 				return
 			}
 			c.Count("timeouts_not_early", 1)
@@ -103,7 +115,7 @@ func runBlocked(c *mon.Case, sp spec) {
 					c.Count("upper_bound_suspects", 1)
 					if suspects >= 3 {
 						w.outcome = "hang"
-						c.Violate("hang/"+w.id(), "%s: deadline %v, three calls returned the timeout far beyond it (last after %v; canary worst oversleep %v)", w.id(), D, lastEl, mon.CanaryWorst())
+						c.Violate("hang/"+w.id(), "%s%s: deadline %v, three calls returned the timeout far beyond it (last after %v; canary worst oversleep %v)", w.id(), besides, D, lastEl, mon.CanaryWorst())
 						return
 					}
 					continue
@@ -113,7 +125,7 @@ func runBlocked(c *mon.Case, sp spec) {
 			good++
 		case isTimeoutErr(err):
 			w.outcome = "wrong-timeout"
-			c.Violate("wrong-timeout-error/"+w.id(), "%s returned %v, the timeout error of the other direction", w.id(), err)
+			c.Violate("wrong-timeout-error/"+w.id(), "%s%s returned %v, the timeout error of the other direction", w.id(), besides, err)
 			return
 		case leave && err == mangos.ErrNoPeers && !sp.FNP:
 			// the no-peers error belongs to fail-no-peers mode; without it a peer leaving leaves the
@@ -128,11 +140,11 @@ func runBlocked(c *mon.Case, sp spec) {
 			return
 		case err == nil:
 			w.outcome = "not-blocked"
-			c.Inconclusive("%s (peer %s, state %s, q=%d): the call completed (%v) instead of blocking — state not reached", w.id(), sp.Peer, sp.State, sp.Q, el)
+			c.Inconclusive("%s (peer %s, state %s, q=%d)%s: the call completed (%v) instead of blocking — state not reached", w.id(), sp.Peer, sp.State, sp.Q, besides, el)
 			return
 		default:
 			w.outcome = "wrong-error:" + errName(err)
-			c.Violate("blocked-call-wrong-error/"+w.id()+"/"+errName(err), "%s (peer %s, state %s) with deadline %v returned %v after %v, want %v", w.id(), sp.Peer, sp.State, D, err, el, w.wantTimeout())
+			c.Violate("blocked-call-wrong-error/"+w.id()+"/"+errName(err), "%s (peer %s, state %s)%s with deadline %v returned %v after %v, want %v", w.id(), sp.Peer, sp.State, besides, D, err, el, w.wantTimeout())
 			return
 		}
 	}
